@@ -158,6 +158,9 @@ def list_method(ex, st, l, name, pos, kw, node):
         if l.h.name == "Local" and not l.h.args and pos[0].h is not None:
             l.h.args = [pos[0].h]
         ex.heap_set(st, "$seq", z3.Store(seq, l.t, Append1(s, x)), hint=l.h, fresh_obj=l.fresh)
+        # eager ground instances of the Append1 axioms for the element just appended (membership, length, last position)
+        if ex.quant_facts is None:
+            st.add_fact(z3.And(Contains(Append1(s, x), x), Len(Append1(s, x)) == Len(s) + 1, At(Append1(s, x), Len(s)) == x))
         if ety is not None and ety.kind in ("num", "int", "time", "fnum", "real"):
             # eager instance of the sum axiom for lists of numbers
             st.add_fact(smt.SumR(Append1(s, x)) == smt.SumR(s) + smt.numr(x))
